@@ -12,6 +12,7 @@ import (
 	corev1 "k8s.io/api/core/v1"
 	"k8s.io/apimachinery/pkg/api/resource"
 	metav1 "k8s.io/apimachinery/pkg/apis/meta/v1"
+	"k8s.io/apimachinery/pkg/types"
 	"k8s.io/apimachinery/pkg/util/sets"
 	schedconfig "k8s.io/kubernetes/pkg/scheduler/apis/config"
 
@@ -500,8 +501,38 @@ func c07DistinctMinors(al []c07Alloc) bool {
 	return true
 }
 
+// the ledger BETWEEN the two halves of an update (release of `old`, then add): only needed to evaluate the hypothesis
+// histSched for the add half (it is stated op by op).  Obtained by running the release half on a copy of the node's
+// maps; not used by any property oracle.
+func (c *c07Case) midLedger(pod int, old apiext.DeviceAllocations) *c07Ledger {
+	nd := c.nd()
+	if nd == nil || len(old) == 0 {
+		return c.cur
+	}
+	cp := newNodeDevice()
+	nd.lock.RLock()
+	for dt, dr := range nd.deviceTotal {
+		cp.deviceTotal[dt] = dr.DeepCopy()
+	}
+	for dt, dr := range nd.deviceFree {
+		cp.deviceFree[dt] = dr.DeepCopy()
+	}
+	for dt, dr := range nd.deviceUsed {
+		cp.deviceUsed[dt] = dr.DeepCopy()
+	}
+	for dt, m := range nd.allocateSet {
+		cp.allocateSet[dt] = map[types.NamespacedName]deviceResources{}
+		for k, v := range m {
+			cp.allocateSet[dt][k] = v.DeepCopy()
+		}
+	}
+	nd.lock.RUnlock()
+	cp.updateCacheUsed(old, c07Pod(pod, nil, c07Node), false)
+	return c07Read(cp)
+}
+
 // bookkeeping of one accepted-or-dropped add / removal of one device type (the gate is the harness' own live record)
-func (c *c07Case) noteAdd(t, pod int, al []c07Alloc) {
+func (c *c07Case) noteAdd(t, pod int, al []c07Alloc, at *c07Ledger) {
 	if _, dup := c.live[t][pod]; dup {
 		return
 	}
@@ -512,7 +543,7 @@ func (c *c07Case) noteAdd(t, pod int, al []c07Alloc) {
 	// allocator-consistent on the ledger before the op: the device has a free entry that exposes every key of the
 	// entry with at least that amount
 	for _, a := range al {
-		row := c.cur.rows[[2]int{t, a.minor}]
+		row := at.rows[[2]int{t, a.minor}]
 		if row == nil || !row.hasF {
 			c.sched = false
 			continue
@@ -835,7 +866,7 @@ func (c *c07Case) doAdd(kind string, pod int, g c07Groups) {
 		return
 	}
 	for _, t := range g.types() {
-		c.noteAdd(t, pod, g[t])
+		c.noteAdd(t, pod, g[t], c.cur)
 	}
 	c.cur = c.emitLedger()
 	c.checkLedger(kind, before, c.cur)
@@ -889,12 +920,17 @@ func (c *c07Case) doReannotate(pod int, g c07Groups) {
 	h.Op("upd %d 1 1 1 0 %s %s", pod, g.tok(), g.tok())
 	allocs := g.api()
 	before := c.cur
+	mid := c.midLedger(pod, allocs)
 	if h.Guard(func() {
 		c.cache.onPodUpdate(c07Pod(pod, allocs, c07Node), c07Pod(pod, allocs, c07Node))
 		h.Tag("entry:onPodUpdate-same")
 	}) {
 		h.Obs("panic")
 		return
+	}
+	for _, t := range g.types() {
+		c.noteRemove(t, pod, g[t])
+		c.noteAdd(t, pod, g[t], mid)
 	}
 	c.cur = c.emitLedger()
 	c.checkLedger("release", before, c.cur) // an update never grows an over-commit either
@@ -913,6 +949,10 @@ func (c *c07Case) doUpdate(kind string, pod int, oldG, newG c07Groups, oldAssign
 	h := c.h
 	h.Op("upd %d 1 %d %d %d %s %s", pod, vB(oldAssigned), vB(newAssigned), vB(newTerminated), oldG.tok(), newG.tok())
 	before := c.cur
+	mid := c.cur
+	if oldAssigned && newAssigned && !newTerminated {
+		mid = c.midLedger(pod, oldG.api())
+	}
 	oldNode, newNode := c07Node, c07Node
 	if !oldAssigned {
 		oldNode = ""
@@ -951,7 +991,7 @@ func (c *c07Case) doUpdate(kind string, pod int, oldG, newG c07Groups, oldAssign
 			}
 		}
 		for _, t := range newG.types() {
-			c.noteAdd(t, pod, newG[t])
+			c.noteAdd(t, pod, newG[t], mid)
 		}
 	}
 	c.cur = c.emitLedger()
